@@ -1126,6 +1126,12 @@ def suite_output_vars(ctx):
         in_ctx, env, wctx, inp = gen_env_ctx_input(rng)
         which = rng.choice(['output', 'output', 'vars'])
         spec = gen_pd(rng, VARS + ['o'], 0 if which == 'output' else 1, 3)
+        if which == 'vars':
+            # Workflow._create_execution evaluates `vars` right after creating the execution: the stored context
+            # holds only the engine's own keys then (openstack, __execution), never workflow data.  (With workflow
+            # data in it a variable evaluated to the very object stored under another key is changed by the
+            # in-place merge that follows - a state the engine cannot be in.)
+            wctx = {k: v for k, v in wctx.items() if k.startswith('__')}
         wf_dict = {'type': 'direct', 'tasks': {'t1': {'action': 'std.noop'}}}
         if spec:
             wf_dict[which] = raw_pd(spec, rng)
